@@ -447,6 +447,7 @@ func runEvolution(r *evid.Run, dir string, cs int64) {
 					e.stats["offline-reorgs"]++
 				}
 			}
+			var afterRescanDone chan struct{}
 			if k := rg.Intn(4); k == 0 {
 				// the best chain is reorganised while the startup rescan is running:
 				// the wallet ignores the disconnects at that stage (by design) and only
@@ -484,6 +485,39 @@ func runEvolution(r *evid.Run, dir string, cs int64) {
 					what += fmt.Sprintf(" + reorg of depth %d (%d new blocks) during the startup rescan", depth, newLen)
 					e.stats["reorgs-during-rescan"]++
 				}
+			} else if k == 2 {
+				// the backend's very next notifications after RescanFinished are a
+				// reorg (wallet payments in the detached blocks allowed: from that
+				// notification on the wallet must treat disconnects normally)
+				tip := int(ch.Height())
+				maxd := tip - int(e.first) - 1
+				if maxd > 3 {
+					maxd = 3
+				}
+				if maxd >= 1 {
+					depth := 1 + rg.Intn(maxd)
+					newLen := depth + rg.Intn(2)
+					done := make(chan struct{})
+					afterRescanDone = done
+					ch.AfterRescan = func() {
+						defer close(done)
+						ch.AfterRescan = nil
+						// one no-op first: once the wallet has taken it, it has finished
+						// processing RescanFinished (its queries about the rescanned range are
+						// answered from the chain as it was); only then does the chain change
+						ch.Send(fakechain.Noop{})
+						e.markKnownOnChain() // what the rescan has shown the wallet
+						discs, _ := ch.ReorgSilent(depth, newLen, map[int][]*wire.MsgTx{})
+						for _, dn := range discs {
+							ch.Send(dn)
+						}
+						for hh := tip - depth + 1; hh <= int(ch.Height()); hh++ {
+							ch.NotifyConnect(hh)
+						}
+					}
+					what += fmt.Sprintf(" + reorg of depth %d (%d new blocks) delivered right behind RescanFinished", depth, newLen)
+					e.stats["reorgs-right-behind-rescan-finished"]++
+				}
 			} else if k == 1 {
 				// a block arrives while the startup rescan is running
 				ch.DuringRescan = func() {
@@ -501,6 +535,10 @@ func runEvolution(r *evid.Run, dir string, cs int64) {
 				}
 				e.fail("c15:reopen-failed", fmt.Sprintf("restart (%s): %v", what, err))
 				return
+			}
+			if afterRescanDone != nil {
+				<-afterRescanDone // the notifications behind RescanFinished have all been delivered
+				afterRescanDone = nil
 			}
 			after = "restart; while stopped: " + what
 			e.stats["restarts"]++
@@ -521,7 +559,7 @@ func runEvolution(r *evid.Run, dir string, cs int64) {
 
 func main() {
 	r := evid.New(P, "exploration")
-	r.Rule("(wallets are opened with a recovery window of 0, 3 or 250 -- the daemon always uses 250 -- chosen per evolution) generated chain evolutions fed to a complete wallet.Wallet through an in-memory chain.Interface (both delivery styles: btcd RelevantTx+BlockConnected, bitcoind/neutrino FilteredBlockConnected+BlockConnected): extensions by 1..5 blocks, reorgs of depth 1..12 within the stored window (new branch equal or longer), wallet payments placed in the losing branch, re-included at other heights of the winning branch or left unconfirmed, unconfirmed payments, repeated BlockConnected(tip), repeated / stale / unknown-hash BlockDisconnected (also re-delivered half-way through a reorg: after all disconnects, or between two instalments of the new branch, where the synced-to block must already be a best-chain block), restarts with the chain unchanged / extended / reorganised while the wallet was stopped, a block connected while the startup rescan is still running, and a reorg of payment-free tip blocks (depth 1..3, longer new branch) delivered while the startup rescan is still running. After EVERY step (deterministic two-no-op barrier) the backend's best chain is the oracle: SyncedTo = tip (height and hash), BlockHash(h) = best-chain hash for every stored height up to the tip, every transaction reported with a block names a best-chain block that contains it, every best-chain payment is reported confirmed, CalculateBalance(1) and (0) equal the backend ledger. Non-trivial = evolution with at least one reorg; distinct = distinct step sequences.")
+	r.Rule("(wallets are opened with a recovery window of 0, 3 or 250 -- the daemon always uses 250 -- chosen per evolution) generated chain evolutions fed to a complete wallet.Wallet through an in-memory chain.Interface (both delivery styles: btcd RelevantTx+BlockConnected, bitcoind/neutrino FilteredBlockConnected+BlockConnected): extensions by 1..5 blocks, reorgs of depth 1..12 within the stored window (new branch equal or longer), wallet payments placed in the losing branch, re-included at other heights of the winning branch or left unconfirmed, unconfirmed payments, repeated BlockConnected(tip), repeated / stale / unknown-hash BlockDisconnected (also re-delivered half-way through a reorg: after all disconnects, or between two instalments of the new branch, where the synced-to block must already be a best-chain block), restarts with the chain unchanged / extended / reorganised while the wallet was stopped, a block connected while the startup rescan is still running, and a reorg of payment-free tip blocks (depth 1..3, longer new branch) delivered while the startup rescan is still running, and a reorg delivered as the very next notifications after RescanFinished. After EVERY step (deterministic two-no-op barrier) the backend's best chain is the oracle: SyncedTo = tip (height and hash), BlockHash(h) = best-chain hash for every stored height up to the tip, every transaction reported with a block names a best-chain block that contains it, every best-chain payment is reported confirmed, CalculateBalance(1) and (0) equal the backend ledger. Non-trivial = evolution with at least one reorg; distinct = distinct step sequences.")
 	r.Trusted("fakechain (harness) as the definition of the best chain")
 	r.Assume("reorgs never reach below the first block the wallet stored (outside 'within the window')", "hashes above the tip are not inspected", "assertions start after RescanFinished (the wallet ignores disconnects before that by design)", "repeated BlockConnected is only sent for the current tip")
 	dir, _ := os.MkdirTemp("", "c15")
